@@ -59,6 +59,18 @@ class VStr(V):
         return f"VStr({self.t})"
 
 
+class VEnum(VStr):
+    """A member of an Enum class, represented by its VALUE (a string); `.value` / `.name` are understood, every
+    other operation sees the value string (as for `class X(str, Enum)` members)."""
+
+    def __init__(self, t, enum_ty):
+        VStr.__init__(self, t)
+        self.enum_ty = enum_ty
+
+    def __repr__(self):
+        return f"VEnum({self.t})"
+
+
 class VNone(V):
     def __init__(self):
         self.ty = NoneT
@@ -130,6 +142,84 @@ class VDict(V):
 
     def __repr__(self):
         return f"VDict({self.t})"
+
+
+def _alias_state(d):
+    """Where the alias bookkeeping of a dict object lives (a VDictRef is a per-use view: its state is its reference's)."""
+    return d.ref if isinstance(d, VDictRef) else d
+
+
+class VAnyRef(VAny):
+    """The value stored in a dict under a key, seen as a REFERENCE into that dict (`x = d[k]`): reads give the current
+    content of d[k]; item assignment through x updates d (Python aliasing of nested dicts). When an entry of d is
+    re-bound directly (`d[j] = v`) every live reference is frozen to the value it had: reads stay correct (x keeps
+    denoting the object it was bound to). Writes through a frozen reference, and writes through any reference of a dict
+    that has frozen references, are outside the subset (Unsupported) -- so a frozen snapshot can never go stale."""
+
+    def __init__(self, owner, key_term):
+        self.owner = owner  # VDict (or VDictRef)
+        self.key = key_term
+        self.frozen = None
+        self.ty = Any
+        st = _alias_state(owner)
+        if not hasattr(st, "child_refs"):
+            st.child_refs = []
+        st.child_refs.append(self)
+
+    @property
+    def t(self):
+        if self.frozen is not None:
+            return self.frozen
+        return z3.Select(self.owner.t, self.key)
+
+    def freeze(self):
+        if self.frozen is None:
+            self.frozen = z3.Select(self.owner.t, self.key)
+            for r in getattr(self, "child_refs", ()):
+                r.freeze()
+
+    def write(self, val):
+        if self.frozen is not None:
+            raise Unsupported("item assignment through a reference whose owner dict was re-bound (aliasing lost)")
+        if getattr(_alias_state(self.owner), "had_frozen", False):
+            raise Unsupported("item assignment through a reference into a dict that has frozen references (aliasing lost)")
+        self.owner.t = z3.Store(self.owner.t, self.key, val)
+
+    def clone(self, memo):
+        return VAny(self.t)
+
+    def __repr__(self):
+        return f"VAnyRef({self.t})"
+
+
+class VDictRef(VDict):
+    """Dict view of a VAnyRef: reads and writes go through the reference (so they reach the owning dict)."""
+
+    def __init__(self, ref):
+        self.ref = ref
+        self.ty = Dict
+
+    @property
+    def t(self):
+        return ValSort.dv(self.ref.t)
+
+    @t.setter
+    def t(self, val):
+        self.ref.write(ValSort.D(val))
+
+    def clone(self, memo):
+        return VDict(self.t)
+
+
+def freeze_refs(d):
+    """An entry of d is about to be re-bound directly: outstanding references keep the values they denote now."""
+    st = _alias_state(d)
+    live = [r for r in getattr(st, "child_refs", ()) if r.frozen is None]
+    for r in live:
+        r.freeze()
+    if live:
+        st.had_frozen = True
+        st.child_refs = []
 
 
 class VList(V):
@@ -591,6 +681,8 @@ class Rec(Ty):
 
 def _tykey(t):
     """Structural identity of a type descriptor (two record types of the same name but different fields differ)."""
+    if isinstance(t, EnumOf):
+        return "Str"
     if isinstance(t, Rec):
         return ("rec", t.name, tuple((k, _tykey(t.fields[k])) for k in sorted(t.fields)))
     if isinstance(t, Opt):
@@ -600,6 +692,46 @@ def _tykey(t):
     if isinstance(t, SeqOf):
         return ("seq", _tykey(t.elem) if t.elem is not None else None)
     return t.name
+
+
+class ClassKey:
+    """Unresolved reference to a class of the program ("relpath::Class"); resolved by the executor on first use."""
+
+    def __init__(self, key):
+        self.key = key
+        self.name = key.split("::")[-1]
+
+
+class ClassOf(Ty):
+    """A class object passed as a value (e.g. a config class handed to a generic loader). The parameter stands for
+    the named protocol / base class: attribute access and calls resolve there (subclass dispatch is by contract)."""
+
+    def __init__(self, key):
+        self.key = key
+        self.name = f"ClassOf({key})"
+
+    def fresh(self, base):
+        return VClass(ClassKey(self.key))
+
+
+class EnumOf(Ty):
+    """Member of the string-valued Enum class `cls` ("relpath::Class"), represented by its value string: same SMT sort
+    (and same structural identity) as Str, so a record with an EnumOf field and the same record with a Str field
+    holding the member's value are ONE sort -- two views of the same objects."""
+
+    def __init__(self, cls, pycls=None):
+        self.cls = cls
+        self.pycls = pycls
+        self.name = f"Enum({cls.split('::')[-1]})"
+
+    def sort(self):
+        return z3.StringSort()
+
+    def wrap(self, term):
+        return VEnum(term, self)
+
+    def pack(self, v):
+        return coerce(v, Str).t
 
 
 class Opaque(Ty):
